@@ -896,6 +896,10 @@ impl<'lexer> Lexer<'lexer> {
   /// Returns **true* when the next character on input is the additional name symbol.
   fn is_next_additional_name_symbol(&self) -> bool {
     if let Some(ch) = self.char_at(1) {
+      // the beginning of a comment (`//` or `/*`) is not a part of the name
+      if ch == '/' && matches!(self.char_at(2), Some('/') | Some('*')) {
+        return false;
+      }
       is_additional_name_symbol(ch)
     } else {
       false
@@ -962,6 +966,18 @@ impl<'lexer> Lexer<'lexer> {
     while let Some(ch) = self.char_at(offset) {
       if chars.contains(&ch) {
         return true;
+      } else if ch == '/' && self.char_at(offset + 1) == Some('*') {
+        // skip the multi-line comment
+        offset += 2;
+        while self.char_at(offset).is_some() && !(self.char_at(offset) == Some('*') && self.char_at(offset + 1) == Some('/')) {
+          offset += 1;
+        }
+        offset += 1;
+      } else if ch == '/' && self.char_at(offset + 1) == Some('/') {
+        // skip the single-line comment
+        while self.char_at(offset).is_some() && self.char_at(offset) != Some('\n') {
+          offset += 1;
+        }
       } else if !is_whitespace(ch) {
         return false;
       }
